@@ -364,10 +364,44 @@ let handle_calltree (rest : string list) : string =
   | [gs] ->
       let subs = List.map (fun w -> if w = "-" then [] else List.map (fun c -> nat_of_int (int_of_string c)) (split_on ',' w))
           (split_on '|' gs) in
-      (match check_call_tree (z_of_dec (string_of_int (int_of_nat maxSubroutineCallTree))) subs with
+      (match check_call_tree maxSubroutineCallTree subs with
        | OK true -> "ok accepted" | OK false -> "ok rejected"
        | Err -> "err" | Crash -> "crash" | OutOfFuel -> "outoffuel")
   | _ -> failwith "calltree request"
+
+(* ---- C08: argument-driven built-ins (Model/Builtins.v):  bi strrep <hex s> <count> | bi strpad <hex s> <width> <hex pad> | bi randomstr <n> <hex chars>
+   reply: ok <length> <notset> <hex> | err *)
+let handle_bi (rest : string list) : string =
+  let limit = maxRequestWorkspaceSize in
+  let hx h = if h = "-" then [] else str_of_hex h in
+  let show = function
+    | OK r -> Printf.sprintf "ok %d 0 %s" (List.length r) (if List.length r <= 8192 then hex_of_str r else "-")
+    | Err -> "err" | Crash -> "crash" | OutOfFuel -> "outoffuel" in
+  match rest with
+  | ["strrep"; s; c] -> show (strrep limit (hx s) (z_of_dec c))
+  | ["strpad"; s; w; p] -> show (strpad limit (hx s) (z_of_dec w) (hx p))
+  | ["randomstr"; n; cs] ->
+      (match randomstr limit (fun _ -> O) (z_of_dec n) (hx cs) with
+       | OK None -> "ok 0 1 "
+       | OK (Some r) -> Printf.sprintf "ok %d 0 -" (List.length r)
+       | Err -> "err" | Crash -> "crash" | OutOfFuel -> "outoffuel")
+  | _ -> failwith "bi request"
+
+(* ---- C07: re.group.N (Model/ReGroup.v):  regroup ((m _) (m ("hex" "hex")) (call (...)))
+   reply: for every step the text  <g0|g1|g2|g3>  (hex), "(null)" for a group that is not set *)
+let rec rop_of = function
+  | Ls [At "m"; At "_"] -> RMatch None
+  | Ls [At "m"; Ls l] -> RMatch (Some (List.map (function Sq h -> str_of_hex h | _ -> failwith "group") l))
+  | Ls [At "call"; Ls body] -> RCall (List.map rop_of body)
+  | x -> failwith ("bad rop " ^ sexp_to_string x)
+let handle_regroup (rest : string) : string =
+  match parse_sexps rest with
+  | [Ls ops] ->
+      let show g =
+        let one n = (match read g (nat_of_int n) with VStr (s, false) -> hex_of_str s | _ -> "286e756c6c29") in
+        "3c" ^ one 0 ^ "7c" ^ one 1 ^ "7c" ^ one 2 ^ "7c" ^ one 3 ^ "3e" in
+      "ok " ^ String.concat " " (List.map show (trace [] (List.map rop_of ops)))
+  | _ -> failwith "regroup request"
 
 let handle (req : string) : string =
   match split_on ' ' req with
@@ -378,6 +412,8 @@ let handle (req : string) : string =
   | "prog" :: rest -> handle_prog (String.concat " " rest)
   | "series" :: rest -> handle_series rest
   | "calltree" :: rest -> handle_calltree rest
+  | "bi" :: rest -> handle_bi rest
+  | "regroup" :: rest -> handle_regroup (String.concat " " rest)
   | _ -> failwith "unknown request"
 
 let () = Common.serve handle
